@@ -173,3 +173,20 @@ CHECKS["C17"] = hist_check(
     "export, move+rebuild, export, accumulate, export; particles are inserted in reverse leaf order so that the internal order differs "
     "from the insertion order; oracle: entry i of getAllParticlesData / getAllParticlesRhs = values of the particle inserted at "
     "position i. states = points of the history at which the export is compared.")
+
+
+CHECKS["C14"] = {
+    "builds": [{"name": "mem_driver", "sources": ["drivers/mem_driver.cpp"], "flags": ["-O1", "-g"]}],
+    "runs": [{"driver": "mem_driver", "args": ["--mode", "C14"], "slices": 32}],
+    "level": "model_checking",
+    "replayable": False,
+    "rule": "Part A: for 11 block layouts (1-4 sub-blocks of scalar/vector/multi-row/multi-col kinds, element sizes 1,2,8,16,24,64,128,4096) "
+            "BFS over histories of {18 reset size vectors from {0,1,7,8,9,63,64,65,10^4}, write pattern, move-construct, move-assign, "
+            "byte-copy + raw-memory view} to the stated depth, pruned by (model, allocated size); after every operation every accessor "
+            "returns the model value, every element lies inside [ptr, ptr+allocated-trailer), blocks do not overlap, a view over a byte "
+            "copy (both construction modes) returns identical values, a moved-from block is empty. Part B: for every group of every "
+            "enumerated tree the raw-memory views over byte copies agree accessor by accessor with the originals, and the sequential "
+            "executor run on a tree made only of such views leaves byte-identical buffers.",
+    "assumptions": COMMON_ASSUME + ["over-aligned element types (alignment > 16) are outside the enumerated alphabet"],
+    "deadline": {"quick": 600, "thorough": 2400},
+}
